@@ -23,3 +23,5 @@ Definition gen_link_Assert_reject (value : Z) : bool := (value =? 0).
 
 (* the image is handed over with one write_all(&self.data), after the loop over the links *)
 Definition gen_link_output_is_write_all : bool := true.
+(* the undefined-symbol check over symtab.references() is the first statement, the loop over the links the second *)
+Definition gen_link_references_checked_first : bool := true.
